@@ -26,7 +26,8 @@ RULE = ('case = (pool seed, OUT kind, selector per section). The pool seed expan
         'is decoded by the reference .p8 / PNG+stego readers and by file.from_file and compared section by '
         'section with the selection model; label pixels / __label__ compared with the previous OUT. '
         'Non-trivial = >= 2 sections taken from different source files and OUT pre-existing; distinct by '
-        '(pool seed, OUT kind, selectors).')
+        '(pool seed, OUT kind, selectors).'
+        ' A quarter of the pools are "twin" pools: source a.p8 holds exactly the data OUT already has and its code (like m.lua\'s) is OUT\'s code with another quote style, so a build changes nothing but the spelling of the Lua section - which must still become the source\'s. d.p8.png and an existing .p8.png OUT are PNGs as image tools re-save them (interlaced, filtered, split IDAT, ancillary chunks).')
 ASSUMPTIONS = ['"section" = the cart memory region (gfx 0x0000-0x1fff incl. the shared half, map 0x2000-0x2fff, gff, '
                'music, sfx) resp. the Lua code text; the version number of OUT is not constrained',
                'empty defaults are taken from the documented empty cart (gfx/map/gff zero, music 41 42 43 44 per '
